@@ -412,3 +412,24 @@ def chi2_p(obs, exp) -> tuple[float, float]:
 
 P_FLAG = 1e-6  # per-statistic false-alarm level for i.i.d. tests
 Z_FLAG = 5.0
+
+
+def selftest_calc(calc_factory, atoms: Atoms, h: float = 1e-5, tol: float = 1e-6) -> float:
+    """Finite-difference check that a harness calculator's forces are minus the energy gradient."""
+    a = atoms.copy()
+    a.calc = calc_factory()
+    f = a.get_forces()
+    worst = 0.0
+    for i in range(len(a)):
+        for c in range(3):
+            p = a.positions.copy()
+            p[i, c] += h
+            b = atoms.copy(); b.positions = p; b.calc = calc_factory()
+            ep = b.get_potential_energy()
+            p[i, c] -= 2 * h
+            b = atoms.copy(); b.positions = p; b.calc = calc_factory()
+            em = b.get_potential_energy()
+            worst = max(worst, abs(-(ep - em) / (2 * h) - f[i, c]))
+    if worst > tol * max(1.0, np.abs(f).max()):
+        raise AssertionError(f"harness calculator self-test failed: force error {worst}")
+    return worst
